@@ -145,6 +145,8 @@ class CFG:
         self.entry.add("n", first)
         self._prune()
         self._dom: dict[int, set[int]] | None = None
+        STATS["cfgs_built"] += 1
+        STATS["cfg_nodes"] += len(self.nodes)
 
     # ----------------------------------------------------------- construction
     def _node(self, kind, stmt=None, label="", exprs=None) -> Node:
@@ -429,6 +431,10 @@ class CFG:
 # --------------------------------------------------------------------------- #
 
 
+# measured by every run and reported in the evidence
+STATS = {"explorations": 0, "states": 0, "cfgs_built": 0, "cfg_nodes": 0}
+
+
 @dataclass
 class Escape:
     exit_kind: str  # 'return' | 'raise' | 'check' (a `check` callback fired at a node)
@@ -503,8 +509,10 @@ def explore(
                     if edge_ok is None or edge_ok(n, l, st1):
                         push(m, tok, st1, k0, None)
     escapes: list[Escape] = []
+    STATS["explorations"] += 1
     while work:
         n, tok, st, rz = work.pop()
+        STATS["states"] += 1
         if visit is not None:
             visit(n, tok)
         key = (n.id, tok, st, rz.id if (rz is not None and tok is not None) else None)
